@@ -621,8 +621,13 @@ func (c *Collection) setLastCas(txn *sql.Tx, cas CAS) (err error) {
 
 // Runs a function within a SQLite transaction, passing it a new CAS to assign to the
 // document being modified. The function returns an event to be posted.
+//
+// The commit and the posting of the event happen under bucket.postMutex, so that events reach the
+// feeds in the order the mutations were committed (= CAS order), and so that a feed that is
+// starting (see StartDCPFeed) sees each mutation either in its backfill or as a live event.
 func (c *Collection) withNewCas(fn func(txn *sql.Tx, newCas CAS) (*event, error)) error {
 	var e *event
+	c.bucket.postMutex.Lock()
 	err := c.bucket.inTransaction(func(txn *sql.Tx) error {
 		newCas := uint64(hlc.Now())
 		var err error
@@ -636,6 +641,11 @@ func (c *Collection) withNewCas(fn func(txn *sql.Tx, newCas CAS) (*event, error)
 	if err == nil && e != nil {
 		verifPoint("cas.beforePost", c.bucket.name)
 		c.postNewEvent(e)
+	}
+	c.bucket.postMutex.Unlock()
+	if err == nil && e != nil {
+		// (not under postMutex: the expiry timer holds its own mutex while it deletes documents)
+		c.bucket.expManager.scheduleExpirationAtOrBefore(e.exp)
 	}
 	return err
 }
